@@ -549,6 +549,52 @@ Proof.
   rewrite <- !app_assoc. reflexivity.
 Qed.
 
+Lemma after_mkdir fs0 outp ins (b b' : option nat) :
+  pext outp = XStore -> flookup outp fs0 = None -> (forall p, In p ins -> pext p = XNc) ->
+  (forall p, In p ins -> exists f, flookup p fs0 = Some (NFile f)) -> NoDup (map pbase ins) ->
+  (b = None -> b' = None) ->
+  let fsm := fupd outp (NDir empty_dir) fs0 in
+  let res := run_steps fixed_cfg fs0 outp ins
+               (map SRename (seqn (length ins)) ++
+                (if all_indexed fs0 ins then index_steps ins else []) ++ [SMetaOpen; SMetaDump]) fsm b' in
+  (At fs0 outp ins (fst res) /\ snd res = OErr ECrash /\ b <> None) \/
+  (Complete fs0 outp ins (fst res) /\ snd res = OUnit).
+Proof.
+  intros Px Pf Pnc Pfiles Pb. revert b'. cbv zeta.
+  set (fsm := fupd outp (NDir empty_dir) fs0).
+  assert (M0 : Moved fs0 outp ins 0 fsm) by (apply Moved_0; auto).
+  assert (D0 : dir_of outp fsm = empty_dir) by apply dir_of_fupd.
+  intros b' Hb'. cbv zeta. rewrite run_steps_app.
+    assert (I0 : d_index (dir_of outp fsm) = IxAbsent) by now rewrite D0.
+    assert (T0 : d_meta (dir_of outp fsm) = MtAbsent) by now rewrite D0.
+    pose proof (phase_ren fs0 outp ins Px Pnc Pb (length ins) 0 fsm b' eq_refl M0 I0 T0) as R.
+    unfold seqn.
+    destruct (run_phase fixed_cfg fs0 outp ins (map SRename (seq 0 (length ins))) fsm b') as [fs2 b2|fs2 r2];
+      cbn [phase_ok] in R.
+    2:{ destruct R as (A & -> & Nb). left. cbn. repeat split; auto;
+        intros E; apply Nb; auto. }
+    destruct R as ((M2 & I2 & T2) & Hb2).
+    assert (Meta : forall fs3 b3, (b = None -> b3 = None) -> Moved fs0 outp ins (length ins) fs3 ->
+               d_index (dir_of outp fs3) = final_ix fs0 ins -> d_meta (dir_of outp fs3) = MtAbsent ->
+               let res := run_steps fixed_cfg fs0 outp ins [SMetaOpen; SMetaDump] fs3 b3 in
+               (At fs0 outp ins (fst res) /\ snd res = OErr ECrash /\ b <> None) \/
+               (Complete fs0 outp ins (fst res) /\ snd res = OUnit)).
+    { intros fs3 b3 Hb3 M3 I3 T3. cbv zeta. rewrite run_steps_phase.
+      pose proof (phase_meta fs0 outp ins Px Pnc fs3 b3 M3 I3 T3) as R.
+      destruct (run_phase fixed_cfg fs0 outp ins [SMetaOpen; SMetaDump] fs3 b3) as [fs4 b4|fs4 r4];
+        cbn [phase_ok] in R.
+      - right. cbn. tauto.
+      - destruct R as (A & -> & Nb). left. cbn. repeat split; auto; intros E; apply Nb; auto. }
+    destruct (all_indexed fs0 ins) eqn:Hidx.
+    - rewrite run_steps_app.
+      pose proof (phase_index fs0 outp ins Px Pnc fs2 b2 Hidx M2 I2 T2) as R.
+      destruct (run_phase fixed_cfg fs0 outp ins (index_steps ins) fs2 b2) as [fs3 b3|fs3 r3];
+        cbn [phase_ok] in R.
+      + destruct R as ((M3 & I3 & T3) & Hb3). apply Meta; auto.
+      + destruct R as (A & -> & Nb). left. cbn. repeat split; auto; intros E; apply Nb; auto.
+    - cbn [app]. apply Meta; auto. unfold final_ix. now rewrite Hidx.
+Qed.
+
 Theorem merge_outcome fs0 outp ins b :
   let res := merge_run fixed_cfg fs0 outp ins b in
   (fst res = fs0 /\ exists e, snd res = OErr e) \/
@@ -704,4 +750,59 @@ Proof.
   all: try (pose proof (merge_outcome fs0 outp ins None) as O; cbv zeta in O; rewrite E in O; cbn in O;
             destruct O as [(_ & e' & D)|(_ & [(_ & D & _)|(_ & D)])]; discriminate).
   split; eauto. eapply merge_refused_unchanged; eauto.
+Qed.
+
+(* ------------------------------------------------------------------------------------------- *)
+(* liveness: a merge that meets the preconditions and suffers no fault succeeds                 *)
+(* ------------------------------------------------------------------------------------------- *)
+Lemma NoDup_nodup_nat l : NoDup l -> nodup_nat l = true.
+Proof.
+  induction 1 as [|x r Hx _ IH]; cbn; auto. rewrite IH, andb_true_r. apply negb_true_iff.
+  destruct (existsb (Nat.eqb x) r) eqn:E; auto. apply existsb_exists in E as (y & Hy & Ey).
+  apply Nat.eqb_eq in Ey; subst. contradiction.
+Qed.
+
+Lemma ro_all_ok c fs0 outp ins steps fs :
+  (forall s, In s steps -> exec_step c fs0 outp ins fs s = inl fs) ->
+  run_phase c fs0 outp ins steps fs None = Done fs None.
+Proof.
+  induction steps as [|s r IH]; intros H; cbn [run_phase]; auto.
+  rewrite (H s (or_introl eq_refl)). destruct (is_call s); apply IH; intros s' Hs; apply H; now right.
+Qed.
+
+Lemma check_inputs_ok fs ins :
+  (forall p, In p ins -> (exists f, flookup p fs = Some (NFile f)) /\ pext p = XNc) -> check_inputs fs ins = None.
+Proof.
+  induction ins as [|p r IH]; intros H; cbn; auto.
+  destruct (H p (or_introl eq_refl)) as ((f & L) & X). rewrite L, X. apply IH. intros q Hq. apply H. now right.
+Qed.
+
+Lemma validation_done fs0 outp ins : Pre fs0 outp ins ->
+  run_phase fixed_cfg fs0 outp ins (validation ins) fs0 None = Done fs0 None.
+Proof.
+  intros [Px Pf Pnc Pfiles Pb Psig Pidx]. apply ro_all_ok. unfold validation. cbn [app].
+  intros s [<-|Hs].
+  - cbn [exec_step]. unfold check_args. rewrite check_inputs_ok by (intros p Hp; split; auto).
+    rewrite Px, Pf. cbn [fix_C09a fixed_cfg andb]. now rewrite (NoDup_nodup_nat _ Pb).
+  - apply in_app_iff in Hs as [Hs|[<-|[]]].
+    + apply in_map_iff in Hs as (j & <- & Hj). unfold seqn in Hj. apply in_seq in Hj.
+      destruct (nth_error ins j) as [p|] eqn:Ej; [|apply nth_error_None in Ej; lia].
+      assert (Hp : In p ins) by (eapply nth_error_In; eauto).
+      destruct (Pfiles p Hp) as (f & L). cbn [exec_step]. rewrite Ej, L.
+      destruct ins as [|p0 r]; [contradiction|]. cbn [nth_error].
+      destruct (Pfiles p0 (or_introl eq_refl)) as (f0 & L0).
+      pose proof (Psig p Hp) as S. cbn [hd] in S. unfold input_file, in_file in *. rewrite L0 in *. rewrite L in S.
+      now rewrite <- S, Z.eqb_refl.
+    + cbn [exec_step]. rewrite Pidx. now rewrite eqb_reflx.
+Qed.
+
+Theorem merge_succeeds fs0 outp ins : Pre fs0 outp ins ->
+  snd (merge_run fixed_cfg fs0 outp ins None) = OUnit /\
+  Complete fs0 outp ins (fst (merge_run fixed_cfg fs0 outp ins None)).
+Proof.
+  intros P. pose proof (validation_done fs0 outp ins P) as V. destruct P as [Px Pf Pnc Pfiles Pb Psig Pidx].
+  unfold merge_run. rewrite plan_split, run_steps_app, V. unfold rest_plan. cbn [app run_steps is_call exec_step].
+  rewrite Pf.
+  destruct (after_mkdir fs0 outp ins None None Px Pf Pnc Pfiles Pb (fun _ => eq_refl)) as [(_ & _ & N)|(C & R)];
+    [congruence|]. split; assumption.
 Qed.
